@@ -48,11 +48,20 @@ func checkPaged(name string, fn pageFn, expected []string) []string {
 		return strings.Join(y, ",")
 	}
 	// unpaginated (nil request pagination)
-	items, _, err := fn(nil)
+	items, res0, err := fn(nil)
 	if err != nil {
 		return []string{fmt.Sprintf("%s list (no pagination): %v", name, err)}
 	}
-	if join(items) != strings.Join(want, ",") {
+	// the SDK's default page holds 100 entries: a longer list continues under next_key
+	for guard := 0; res0 != nil && len(res0.NextKey) > 0 && guard <= n; guard++ {
+		more, r2, err := fn(&query.PageRequest{Key: res0.NextKey})
+		if err != nil {
+			return []string{fmt.Sprintf("%s list (default page, continued): %v", name, err)}
+		}
+		items = append(items, more...)
+		res0 = r2
+	}
+	if join(items) != strings.Join(want, ",") || len(items) != n {
 		errs = append(errs, fmt.Sprintf("%s list returns {%s}, expected {%s}", name, join(items), strings.Join(want, ",")))
 		return errs
 	}
